@@ -14,7 +14,10 @@
     sub-Messages held by shared MessageRef (in one or several parents, or twice in one) and changed in place afterwards, item arrays shared by
     ShareName, fields left with ZERO items when the other Message removes the last item; after EVERY call EVERY object is sized, serialised,
     parsed and compared with the specification.  Whole vectors from WireVec: 31 / 32 / 33 / 64 / 200 levels of sub-Messages (one-item and
-    two-item fields), zero-item fields of every kind in every position, 7-item fields, each built through API detours.
+    two-item fields), zero-item fields of every kind in every position, 7-item fields, each built through API detours.  Every parse is ALSO
+    made into a re-used target (the previous parse's result, a copy of the original, other / more fields, a same-named field of another type,
+    the parsed Message itself; UnflattenFromBytes and UnflattenFromByteBuffer) and must equal the parse into a fresh Message.  2 and 4
+    free-running threads round-trip their own disjoint vectors (thorough: also under clang++ -fsanitize=thread).
  3. code -> spec: seeded random scripts (all types, dozens of items, nesting up to 4, NaN / -0 / inf / signalling-NaN patterns, non-ASCII and
     empty strings and names, raw buffers of arbitrary type codes, tags and pointers) run on the real class with the same self-checks; every
     call is logged with the bytes the code produced and TLC validates the log line by line against WireAbs (WireTrace.tla, sharded).
@@ -157,6 +160,26 @@ def run(v, tier, seed):
         wirelib.report_rows(v, rows, "vector enumerated by TLC (deep nesting / zero-item fields / long fields)", "vec01")
         if not summ.get("aborted"):
             with lock: heapnotes["whole_vectors"] = {"vectors": summ["vectors"], "agreed": summ["agreed"], "bytes_compared": summ["bytes_compared"], "zero_item": sum(1 for x in vec if x["zero"])}
+        # the codec is re-entrant across independent objects: free-running threads, each round-tripping its own disjoint vectors
+        mt = {"runs": []}
+        for nt in (2, 4):
+            rep2 = W("mt%d.rep.ndjson" % nt)
+            rows, summ = wirelib.run_wire(v, ["mt", vf, nt, 1500 if quick else int(15000 * max(scale, 0.1)), rep2], "%d threads round-tripping their own Messages" % nt, 400, "mt%d" % nt)
+            wirelib.report_rows(v, rows, "concurrent round trips of independent Messages (%d threads)" % nt, "mt%d" % nt)
+            if not summ.get("aborted"): mt["runs"].append({"threads": nt, "vectors": summ["vectors"], "round_trips": summ["round_trips"], "mismatches": summ["mismatches"]})
+            if not v.violations: os.remove(rep2)
+        if not quick:
+            exe, why = wirelib.build_tsan()
+            if exe is None: mt["thread_sanitizer"] = {"skipped": why}
+            else:
+                rep3 = W("tsan.rep.ndjson")
+                rc, out, err = vlib.run([exe, "mt", vf, "4", str(int(20000 * max(scale, 0.1))), rep3], timeout=1200, env={"TSAN_OPTIONS": "halt_on_error=1:exitcode=66:report_signal_unsafe=0"})
+                rows = vlib.read_ndjson(rep3) if os.path.exists(rep3) else []
+                if rc != 0: vlib.harness_failed(v, rc, out, err, "4 threads round-tripping their own Messages under ThreadSanitizer", "tsan")
+                else:
+                    wirelib.report_rows(v, rows, "concurrent round trips under ThreadSanitizer", "tsan")
+                    mt["thread_sanitizer"] = {"round_trips": [r for r in rows if r.get("summary")][0]["round_trips"], "reports": 0}
+        with lock: heapnotes["concurrent_round_trips"] = mt
         if not v.violations:
             os.remove(vf); os.remove(rep)
 
@@ -255,7 +278,7 @@ def run(v, tier, seed):
             f_inst = [ex.submit(instance, i, maxitems) for i in wirelib.GEN_INSTANCES]
             scale = float(os.environ.get("VERIF_SCALE", "1"))           # < 1: a reduced thorough run
             f_misc = [ex.submit(mixed), ex.submit(simulate, 150 if quick else max(200, int(6000 * scale)), 24 if quick else 40)]
-            f_misc += [ex.submit(whole_vectors, ["deep", "zero", "long"])]
+            f_misc += [ex.submit(whole_vectors, ["deep", "zero", "long", "all"])]
             f_misc += [ex.submit(heap, i, 120 if quick else max(200, int(4000 * scale)), 30 if quick else 45) for i in ("int16", "string", "raw")]
             f_misc += [ex.submit(heap_reach, t) for t in ("Reach_ZeroItemField", "Reach_SharedChildChanged")]
             f_wrong = [ex.submit(wrong, *w) for w in WRONG]
